@@ -464,6 +464,31 @@ func c06CanonIR(r *Repo, w *Lean) error {
 		return err
 	}
 
+	// --- buildCanonicalHeaderValue --------------------------------------------------------
+	s = c06Base("buildCanonicalHeaderValueIR", "(strs : List Bytes)", []string{"strs"}, "Option Bytes")
+	s.Params = []irTerm{{"strs", "List Bytes"}}
+	s.Ext.RangeKeyTy = "Int"
+	s.Panic = "none"
+	s.WhileFuel = []string{"str.length + 1", "str.length + 1", "str.length + 1"}
+	s.Methods["Buf.String"] = irCall{Fmt: "%[1]s", Ty: "Bytes", NArgs: 0}
+	s.StmtMethods = map[string]irStmtCall{
+		"Buf.WriteByte":   {NArgs: 1, Lets: []irLet{{"%[1]s", "Buf", "(%[1]s ++ [%[2]s])"}}},
+		"Buf.WriteString": {NArgs: 1, Lets: []irLet{{"%[1]s", "Buf", "(%[1]s ++ %[2]s)"}}},
+	}
+	s.Index["Bytes"] = irCall{Fmt: "(%[1]s.getD (%[2]s : Int).toNat 0)", Ty: "Byte"}
+	s.SliceRange = map[string]irCall{"Bytes": {Fmt: "(sliceL %[1]s %[2]s %[3]s)", Ty: "Bytes"}}
+	s.Ret = func(v []irTerm) (string, error) {
+		if len(v) != 1 || v[0].Ty != "Bytes" {
+			return "", errUnsupportedReturn
+		}
+		return "some " + v[0].S, nil
+	}
+	if err := irEmit(r, w, c06Signer, "", "buildCanonicalHeaderValue", s,
+		"The three inner `for` loops are general loops: recursion on the fuel `len(str) + 1`; `none` = the fuel ran out (the theorem\n"+
+			"`= some (canonValue strs)` shows it never does)."); err != nil {
+		return err
+	}
+
 	// --- getHost --------------------------------------------------------------------------
 	s = c06Base("getHostIR", "(req : Req)", []string{"req"}, "Bytes")
 	s.Params = []irTerm{{"req", "ReqG"}}
